@@ -35,7 +35,9 @@ LEVEL_TEXT = ("Unbounded proof: for every condition tree (any depth, any mix of 
               "with unused block ids from some m on and an entry nothing points at, whatever the driver merges in however "
               "many passes, a walk from the entry of the result ends at an exit exactly when a walk from the original entry "
               "does - the invariants (edges, unused ids, entry without predecessors) are shown to be kept from one merge "
-              "to the next; chain graphs meet the edge hypothesis for every chain (chain_edges_ok). Outside the model (its "
+              "to the next; every chain whose targets are blocks other than block 0 or exits - all the chains the stream runs - meets the "
+              "hypotheses (chain_hypotheses), so the graph and entry that obs_struct observes have the walks of the chain "
+              "(struct_keeps_chain_walks). Outside the model (its "
               "leaf is an abstract comparison): the same chains over every kind of comparison a block can hold (zero tests "
               "with all six operators, boolean and null tests, two-register tests, cmp-long / cmpl / cmpg results tested "
               "against zero), evaluated with operand values under Java's precedence; and compound conditions (random "
